@@ -167,6 +167,8 @@ def run(case):
         exp_win = [sum(vals[i + j] << (b * j) for j in range(w)) for i in range(L - w + 1)]
         CTX.tick("c13:window", w > 1)
         wt = case.get("wtype")
+        if wt and L > np.iinfo(wt).max:
+            wt = None           # (a type that cannot hold the array length: numpy's own scalar arithmetic overflows, nothing to hold the library to)
         w_ = w if not wt else np.dtype(wt).type(w)      # the window size as a numpy integer (what np.arange / rng.integers / a shape hand out)
         o = attempt(lambda: ba.sliding_window(w_))
         if o.ok:
